@@ -17,6 +17,7 @@ static ABTI_cond CV;
 static ABTI_thread D1, D2;                 /* dummies of other non-yieldable waiters */
 static int a1, k2;                          /* kind of N1 (0 none,1 ULT1,2 ext dummy), kind of N2 (1 ULT2, 2 ext dummy, 3 timed dummy) */
 static int n2_state;                        /* 0 not yet enqueued, 1 queued, 2 gone (woken or timed out) */
+static double f_deadline = 1.0e18;
 static int t_holds, t_pc, sigs_left = 2, f_sig, f_enq_seen, n1_woken, n2_woken, total_wakeops, lost_signal, bad_signal, holders;
 static int f_done;
 #if FOCUS_EXT
@@ -41,7 +42,11 @@ static void do_signal(int bcast)
 {
     int ids[3], ids2[3]; int n = snap(ids);
     int f_in = 0; for (int i = 0; i < 3; i++) if (i < n && ids[i] == 0) f_in = 1;
-#ifndef TIMED
+#ifdef TIMED
+    /* timed variant: the focus may legitimately have LEFT the list (timed out, not yet re-acquired M) -- but only if some clock
+     * reading has reached its deadline.  Before that, a signal issued while M is free must find the focus queued. */
+    if (M.lock.val.val == 0 && !f_in && !f_sig && !f_done && vr_now < f_deadline) lost_signal = 1;
+#else
     /* nobody but the focus ever takes M here, so "M is free" means: the focus has released it inside its wait and has not
      * re-acquired it yet.  A signal issued at such a moment (e.g. by a caller that acquired and released M meanwhile) must
      * find the focus queued (atomic release-and-wait) unless it was already woken. */
@@ -116,7 +121,7 @@ int main(void)
     { int r = ABT_mutex_trylock((ABT_mutex)&M); VR_ASSUME(r == ABT_SUCCESS); holders = 1; }
     vr_in_init = 0;
 #ifdef TIMED
-    struct timespec ts; ts.tv_sec = nondet_int(); ts.tv_nsec = 0; VR_ASSUME(ts.tv_sec >= 0 && ts.tv_sec <= 1000000);
+    struct timespec ts; ts.tv_sec = nondet_int(); ts.tv_nsec = 0; VR_ASSUME(ts.tv_sec >= 0 && ts.tv_sec <= 1000000); f_deadline = (double)ts.tv_sec;
     double deadline = (double)ts.tv_sec;
     holders--;   /* the wait releases M on our behalf */
     int r = ABT_cond_timedwait((ABT_cond)&CV, (ABT_mutex)&M, &ts);
